@@ -271,6 +271,46 @@ def clt_case(ctx, rs, scope, pred, bud, tag):
         ctx.violation('c07-clt-law', f'CLT sampler: frequency {emp[o]:.4f} of completion {combos[o]} of the missing variables {[scope[j] for j in miss]}, exact conditional '
                                      f'{exact[o]:.4f} (N={bud.n}, bound {bud.eps:.4f})', replay=rep)
         return
+    # (a') one batch whose rows have the SAME observed columns but DIFFERENT observed values: every row must be completed from the
+    # conditional given ITS values (two groups, each checked against its own exact conditional)
+    obs_idx = [j for j in range(n) if not np.isnan(ev[j])]
+    if obs_idx and n >= 2:
+        ev2 = ev.copy()
+        flip = obs_idx[rs.randint(len(obs_idx))]
+        ev2[flip] = 1.0 - ev2[flip]
+        half = bud.n // 2
+        XX = np.vstack([np.repeat(ev[None, :], half, axis=0), np.repeat(ev2[None, :], half, axis=0)])
+        XX = XX[rs.permutation(len(XX))]
+        grp2 = XX[:, flip] == ev2[flip]
+        np.random.seed(rep['seed'] + 1)
+        try:
+            YY = clt.sample(XX)
+        except Exception as ex:
+            ctx.violation('c07-clt-sample-raises', f'BinaryCLT.sample raised {type(ex).__name__}: {ex} on a batch of two evidence vectors', replay=rep)
+            return
+        ctx.count('clt-two-group-batches')
+        eps2 = math.sqrt(math.log(2.0 * bud.m / FWER) / (2.0 * half))
+        for gname, gmask, gev in (('first', ~grp2, ev), ('second', grp2, ev2)):
+            Zg = np.repeat(gev[None, :], len(combos), axis=0)
+            for r_, c_ in enumerate(combos):
+                for j, val in zip(miss, c_):
+                    Zg[r_, j] = val
+            lg = np.exp(np.asarray(clt.log_likelihood(Zg), dtype=np.float64).reshape(-1))
+            if lg.sum() <= 0:
+                continue
+            exg = lg / lg.sum()
+            cg = np.zeros(int(gmask.sum()), dtype=np.int64)
+            for j in miss:
+                cg = cg * 2 + YY[gmask][:, j].astype(np.int64)
+            empg = np.bincount(cg, minlength=len(combos)) / max(int(gmask.sum()), 1)
+            bud.used += len(combos)
+            if float(np.abs(empg - exg).max()) > eps2:
+                o = int(np.argmax(np.abs(empg - exg)))
+                ctx.violation('c07-clt-law:two-groups', f'CLT sampler on a batch of two evidence vectors with the same observed columns: in the {gname} group the completion '
+                                                        f'{combos[o]} of {[scope[j] for j in miss]} has frequency {empg[o]:.4f}, exact conditional given that group\'s evidence '
+                                                        f'{exg[o]:.4f} (N={int(gmask.sum())}, bound {eps2:.4f})',
+                              replay=dict(rep, evidence2=[None if np.isnan(t) else float(t) for t in ev2]))
+                return
     # (b) draw parameters vs the model's exact local conditionals (1e-5), if the call shape is as expected
     if not ctx.driver_ok:
         return
@@ -354,7 +394,7 @@ def run(ctx):
     quick = ctx.tier == 'quick'
     n_draws = 200000 if quick else 1000000
     n_disc, n_cont, n_clt = (30, 10, 30) if quick else (400, 100, 400)
-    bud = Budget(n_draws, m_pairs=(n_disc + n_clt) * 64 + n_cont * 7)
+    bud = Budget(n_draws, m_pairs=(n_disc + 3 * n_clt) * 64 + n_cont * 7)
     ctx.extra['hoeffding_bound'] = bud.eps
     ctx.extra['family_wise_error_level'] = FWER
     for k in range(n_disc):
